@@ -352,7 +352,33 @@ func genWide(e *emitter, prop string, tier string) {
 			if r.Intn(2) == 0 {
 				a, b = b, a
 			}
-			e.emit(bcastCase([]string{"multidir", "unidir"}[r.Intn(2)], wData(r, dt, a), wData(r, dt, b)))
+			dtb := dt
+			if r.Intn(5) == 0 { // whether two tensors broadcast depends on their shapes only
+				dtb = []string{"f32", "i64", "bool", "u8"}[r.Intn(4)]
+			}
+			e.emit(bcastCase([]string{"multidir", "unidir"}[r.Intn(2)], wData(r, dt, a), wData(r, dtb, b)))
+		}
+		// high ranks (rank differences up to 10): mostly unit extents so that the operands stay small
+		for i := 0; i < 40; i++ {
+			ra := 5 + r.Intn(7)
+			a := make([]int, ra)
+			for j := range a {
+				a[j] = 1
+				if r.Intn(4) == 0 {
+					a[j] = 2 + r.Intn(2)
+				}
+			}
+			b := wShape(r, r.Intn(3))
+			if len(b) > 0 {
+				b[len(b)-1] = a[ra-1]
+			}
+			if len(b) > 1 {
+				b[len(b)-2] = 1
+			}
+			if r.Intn(2) == 0 {
+				a, b = b, a
+			}
+			e.emit(bcastCase([]string{"multidir", "unidir"}[r.Intn(2)], wData(r, "f32", a), wData(r, "f32", b)))
 		}
 	case "C09":
 		for i := 0; i < n; i++ {
